@@ -146,10 +146,14 @@ theorem c05_22_foreign_noop (cfg : Dll22.Cfg) (s : Dll22.St) (now : Nat) (acc : 
     (hd : (PGN.from_message_id (MessageId.ofCanId canId)).pdu_specific ≠ 255)
     (hacc : acc (PGN.from_message_id (MessageId.ofCanId canId)).pdu_specific = false) :
     Dll22.notify cfg s now acc canId data = { st := s, outs := [], err := none } := by
-  have hd' : ((PGN.from_message_id (MessageId.ofCanId canId)).pdu_specific != Const.Addr.GLOBAL) = true := by
-    simpa [Const.Addr.GLOBAL] using hd
+  have hG : Const.Addr.GLOBAL = 255 := rfl
+  have hcond : ((PGN.from_message_id (MessageId.ofCanId canId)).pdu_specific != Const.Addr.GLOBAL &&
+      !acc (PGN.from_message_id (MessageId.ofCanId canId)).pdu_specific) = true := by
+    rw [hacc, hG]
+    simp only [Bool.not_false, Bool.and_true, bne_iff_ne, ne_eq]
+    exact hd
   unfold Dll22.notify
-  simp [hpdu1, hd', hacc]
+  simp only [hpdu1, Bool.false_eq_true, if_false, hcond, if_true]
 
 /-- J1939-22 BYSTANDER: any sequence of frames between other nodes leaves the stack exactly as it was and silent -/
 def feed22 (cfg : Dll22.Cfg) (acc : Nat → Bool) (s : Dll22.St) : List (Nat × Nat × List Nat) → Dll22.St × List Dll22.Out
